@@ -570,6 +570,11 @@ where
                     s.query(a, b, fnum(line, "t").unwrap_or(0) as i32, fnum(line, "take").unwrap_or(-1), fnum(line, "inj").unwrap_or(0) as u64, true);
                 }
             }
+            Some("bulk") => {
+                if let Some((a, b)) = fstr(line, "raw").as_deref().and_then(pair) {
+                    s.bulk(a, b, fnum(line, "e").unwrap_or(0) as i32, fnum(line, "n").unwrap_or(0) as i32);
+                }
+            }
             Some("clear") => s.clear(),
             Some("matrix") => {
                 let (id, a, b) = (fnum(line, "id").unwrap_or(0) as i32, fnum(line, "a").unwrap_or(0), fnum(line, "b").unwrap_or(0));
